@@ -208,13 +208,10 @@ def isDigit (c : Nat) : Bool := decide (48 ≤ c) && decide (c ≤ 57)
 which insists on `-24h < offset < 24h` (ValueError). Result: offset in µs. -/
 def tzOffsetParse (s : List Nat) : PyM Int :=
   let s := if s.getLast? = some 10 then s.dropLast else s
-  let (sign, rest) : Int × List Nat := match s with
-    | 43 :: r => (1, r)
-    | 45 :: r => (-1, r)
-    | r => (1, r)
+  let sign : Int := if s.head? = some 45 then -1 else 1
+  let rest := if s.head? = some 43 ∨ s.head? = some 45 then s.tail else s
   let go (hh mm : Nat) : PyM Int :=
-    let m : Int := ((hh * 60 + mm : Nat) : Int) * sign
-    if -1440 < m ∧ m < 1440 then .ok (m * 60000000) else .error .valueError
+    if hh * 60 + mm < 1440 then .ok (sign * ((hh * 60 + mm : Nat) : Int) * 60000000) else .error .valueError
   match rest with
   | [h1, h2, 58, m1, m2] =>
     if isDigit h1 && isDigit h2 && isDigit m1 && isDigit m2 then
@@ -398,21 +395,20 @@ def itemsSeconds : List Item → PyM Q
 
 /-- `DurationType(text)`: validate with the regex, strip the sign, add the components exactly,
 range-check the exact sum, round half-even to a whole microsecond -/
-def durParse (text : List Nat) : PyM Int := do
+def durParse (text : List Nat) : PyM Int :=
   let body := if text.getLast? = some 10 then text.dropLast else text   -- `$` before a final newline
-  let (neg, rest) : Bool × List Nat := match body with
-    | 43 :: r => (false, r)
-    | 45 :: r => (true, r)
-    | r => (false, r)
+  let neg : Bool := body.head? = some 45
+  let rest := if body.head? = some 43 ∨ body.head? = some 45 then body.tail else body
   match parseItems (rest.length + 1) rest with
   | none => .error .valueError
   | some items =>
-    let tot ← itemsSeconds items
-    -- MinSeconds <= sign*total <= MaxSeconds  (total ≥ 0; the bounds are symmetric)
-    if tot.num ≤ maxSeconds.toNat * tot.den then
-      let us : Int := ((rne (tot.num * 1000000) tot.den : Nat) : Int)
-      .ok (if neg then -us else us)
-    else .error .valueError
+    match itemsSeconds items with
+    | .error e => .error e
+    | .ok tot =>
+      -- MinSeconds <= sign*total <= MaxSeconds  (total ≥ 0; the bounds are symmetric)
+      if tot.num ≤ 315576000000 * tot.den then
+        .ok ((if neg then -1 else 1) * ((rne (tot.num * 1000000) tot.den : Nat) : Int))
+      else .error .valueError
 
 /-! ## 5. decimal text of integers (`str(int)`) -/
 
